@@ -38,16 +38,26 @@ type Case struct {
 	// probes are the keys (strings)
 	Kind    string `json:"kind"`
 	Weights []int  `json:"weights"`
+	// kind "script" (script.go): servers, instances (cache / kv clusters over them), keys, script
+	Ports []int   `json:"ports"`
+	Insts []Inst  `json:"insts"`
+	SKeys []SKey  `json:"skeys"`
+	Sops  [][]any `json:"sops"`
 }
 
 type Out struct {
-	ID    int        `json:"id"`
-	R     int        `json:"r"`     // effective h.replicas
-	Reprs []string   `json:"reprs"` // repr of each universe node
-	VH    [][]string `json:"vh"`    // per universe node: hash(repr+itoa(i)), i < R (decimal)
-	PH    [][2]string `json:"ph"`   // per probe: hash(repr(v)), hash(innerRepr(v))
-	Gets  [][]int    `json:"gets"`  // gets[0]: before any op; gets[t]: after op t. node index, -1 none, -2 panic, -3 unknown value
-	Err   string     `json:"err,omitempty"`
+	ID    int         `json:"id"`
+	R     int         `json:"r"`     // effective h.replicas
+	Reprs []string    `json:"reprs"` // repr of each universe node
+	VH    [][]string  `json:"vh"`    // per universe node: hash(repr+itoa(i)), i < R (decimal)
+	PH    [][2]string `json:"ph"`    // per probe: hash(repr(v)), hash(innerRepr(v))
+	Gets  [][]int     `json:"gets"`  // gets[0]: before any op; gets[t]: after op t. node index, -1 none, -2 panic, -3 unknown value
+	Err   string      `json:"err,omitempty"`
+	// scripts: per step the touches (key*64+server, sorted, no duplicates; key -1: a key the case does
+	// not know), per step "ok"/"err", per "snap" step the (key, server) pairs where the key is missing
+	Touch [][]int  `json:"touch,omitempty"`
+	Res   []string `json:"res,omitempty"`
+	Snap  [][]int  `json:"snap,omitempty"`
 }
 
 type strg struct{ s string }
@@ -270,8 +280,11 @@ func main() {
 	hx.ReadCases(&cases)
 	w := hx.NewWriter()
 	defer w.Close()
+	initWheel()
 	for _, c := range cases {
-		if c.Kind == "cache" || c.Kind == "kv" {
+		if c.Kind == "script" {
+			w.Put(runScript(c))
+		} else if c.Kind == "cache" || c.Kind == "kv" {
 			w.Put(runCluster(c))
 		} else {
 			w.Put(runCase(c))
